@@ -1,3 +1,6 @@
+use refmodel::curve::*;
+use refmodel::fld::*;
+use refmodel::consts::C;
 fn main() {
     let t = std::time::Instant::now();
     match refmodel::selftest(true) {
@@ -12,4 +15,51 @@ fn main() {
         }
     }
     println!("{:?}", t.elapsed());
+    if std::env::args().nth(1).as_deref() == Some("bench") {
+        let k = &C().r - z(5);
+        let t = std::time::Instant::now();
+        for _ in 0..10 { let _ = e1().mul(&k, &g1_gen()); }
+        println!("G1 mul fast: {:?}", t.elapsed() / 10);
+        let t = std::time::Instant::now();
+        for _ in 0..10 { let _ = e2().mul(&k, &g2_gen()); }
+        println!("G2 mul fast: {:?}", t.elapsed() / 10);
+        let t = std::time::Instant::now();
+        let _ = e1().mul_def(&k, &g1_gen());
+        println!("G1 mul def: {:?}", t.elapsed());
+        let t = std::time::Instant::now();
+        let _ = e2().mul_def(&k, &g2_gen());
+        println!("G2 mul def: {:?}", t.elapsed());
+        let t = std::time::Instant::now();
+        let mut p = g1_gen();
+        for _ in 0..100 { p = e1().add(&p, &g1_gen()); }
+        println!("G1 affine add: {:?}", t.elapsed() / 100);
+        let mut p = g2_gen();
+        let t = std::time::Instant::now();
+        for _ in 0..100 { p = e2().add(&p, &g2_gen()); }
+        println!("G2 affine add: {:?}", t.elapsed() / 100);
+        let t = std::time::Instant::now();
+        let e = refmodel::pairing::pairing(&g1_gen(), &g2_gen());
+        println!("pairing: {:?}", t.elapsed());
+        let t = std::time::Instant::now();
+        let m = refmodel::pairing::miller(&g1_gen(), &g2_gen());
+        println!("miller: {:?}", t.elapsed());
+        let t = std::time::Instant::now();
+        let _ = e.mul(&m);
+        println!("fq12 mul: {:?}", t.elapsed());
+        let t = std::time::Instant::now();
+        let _ = m.inv();
+        println!("fq12 inv: {:?}", t.elapsed());
+        let t = std::time::Instant::now();
+        let _ = refmodel::h2c::hash_to_curve_g2(refmodel::h2c::Expander::XmdSha256, b"abc", b"dst");
+        println!("h2c g2: {:?}", t.elapsed());
+        let t = std::time::Instant::now();
+        let _ = refmodel::h2c::hash_to_curve_g1(refmodel::h2c::Expander::XmdSha256, b"abc", b"dst");
+        println!("h2c g1: {:?}", t.elapsed());
+        let t = std::time::Instant::now();
+        let _ = Fq::from_u64(12345).sqrt();
+        println!("fq sqrt: {:?}", t.elapsed());
+        let t = std::time::Instant::now();
+        let _ = refmodel::consts::w_frob();
+        println!("w_frob table: {:?}", t.elapsed());
+    }
 }
